@@ -122,6 +122,33 @@ def stepOf : String → Option Stmt
 
 def stream (start step : Int) (k : Nat) : Int := start + (k : Int) * step
 
+/-- the function-style macros of the `evals` op on the first value of each operand stream: (outcome, evaluations of the
+    expected stream, evaluations of the actual stream) -/
+def onceOutcome (m : String) (e a : Int) : Option (Outcome × Nat × Nat) :=
+  let ie : CInt := ⟨tyInt, e⟩
+  let ia : CInt := ⟨tyInt, a⟩
+  let d (x : Int) : D Float := classify (Float.ofInt x)
+  match m with
+  | "UNSIGNED_LONGS_EQUAL" => some (UNSIGNED_LONGS_EQUAL e a, 1, 1)
+  | "LONGLONGS_EQUAL" => some (LONGLONGS_EQUAL e a, 1, 1)
+  | "UNSIGNED_LONGLONGS_EQUAL" => some (UNSIGNED_LONGLONGS_EQUAL e a, 1, 1)
+  | "BYTES_EQUAL" => some (BYTES_EQUAL ie ia, 1, 1)
+  | "SIGNED_BYTES_EQUAL" => some (SIGNED_BYTES_EQUAL e a, 1, 1)
+  | "BITS_EQUAL" => some (BITS_EQUAL e a 255 4, 1, 1)
+  | "ENUMS_EQUAL_INT" => some (ENUMS_EQUAL_TYPE 32 e a, 1, 1)
+  | "DOUBLES_EQUAL" => some (DOUBLES_EQUAL floatOps (d e) (d a) (classify 0.5), 1, 1)
+  | "POINTERS_EQUAL" => some (POINTERS_EQUAL (conv 64 e) (conv 64 a), 1, 1)
+  | "C_INT" => some (CHECK_EQUAL_C_INT e a, 1, 1)
+  | "C_LONG" => some (CHECK_EQUAL_C_LONG e a, 1, 1)
+  | "C_BOOL" => some (CHECK_EQUAL_C_BOOL e a, 1, 1)
+  | "C_UBYTE" => some (CHECK_EQUAL_C_UBYTE (e % 256) (a % 256), 1, 1)
+  | "C_BITS" => some (CHECK_EQUAL_C_BITS e a 255 4, 1, 1)
+  | "C_REAL" => some (CHECK_EQUAL_C_REAL floatOps (d e) (d a) (classify 0.5), 1, 1)
+  | "CHECK" | "CHECK_TRUE" => some (CHECK (e != 0), 1, 0)
+  | "CHECK_FALSE" => some (CHECK_FALSE (e != 0), 1, 0)
+  | "CHECK_C" => some (CHECK_C e, 1, 0)
+  | _ => none
+
 /-- ops with several observation lines -/
 def modelMulti (op : List String) : Option (List String) :=
   match op with
@@ -129,7 +156,19 @@ def modelMulti (op : List String) : Option (List String) :=
     match steps.mapM stepOf with
     | some st =>
       let r := runBody st
-      some [s!"r {r.failures} {r.checks}", s!"ran {r.executed}"]
+      some [s!"r {r.failures} {r.checks}", s!"ran {r.executed}", s!"failed {r.failures}"]
+    | none => none
+  | "seqc" :: steps =>
+    -- crash-on-fail mode: the statement that ends the body calls UtestShell::crash() once, then leaves the test as usual
+    match steps.mapM stepOf with
+    | some st =>
+      let r := runBody st
+      -- the statement that ended the body (a failing check, or TEST_EXIT, which also leaves through the current terminator)
+      let crashed : Nat := match (st.take r.executed).getLast? with
+        | some (.check o) => if o.fails then 1 else 0
+        | some .exit => 1
+        | none => 0
+      some [s!"r {r.failures} {r.checks}", s!"ran {r.executed}", s!"failed {r.failures}", s!"crashed {crashed}"]
     | none => none
   | ["evals", m, e0, es, a0, as] =>
     match e0.toInt?, es.toInt?, a0.toInt?, as.toInt? with
@@ -139,7 +178,14 @@ def modelMulti (op : List String) : Option (List String) :=
         | "CHECK_EQUAL" => some (checkEqualRun tyInt (stream e0 es) (stream a0 as))
         | "CHECK_COMPARE_lt" => some (checkCompareRun .lt tyInt (stream e0 es) (stream a0 as))
         | "LONGS_EQUAL" => some (longsEqualRun (stream e0 es) (stream a0 as))
-        | _ => none
+        | "CHECK_COMPARE_ge" => some (checkCompareRun .ge tyInt (stream e0 es) (stream a0 as))
+        | "CHECK_EQUAL_ZERO" =>
+          -- CHECK_EQUAL(0, (actual)): the expected operand is a literal (no evaluation of the expected stream)
+          let r := checkEqualRun tyInt (fun _ => 0) (stream a0 as)
+          some (r.1, { r.2 with expected := 0 })
+        | other =>
+          -- the function-style macros evaluate every operand exactly once
+          (onceOutcome other e0 a0).map fun (o, ne, na) => (o, { expected := ne, actual := na, warnings := 0 })
       run.map fun (o, ev) =>
         [s!"r {if o.fails then 1 else 0} {o.counted}", s!"evals {ev.expected} {ev.actual}", s!"warn {ev.warnings}"]
     | _, _, _, _ => none
@@ -412,13 +458,23 @@ def seqExpect : List (Option (Bool × Nat)) → Nat × Nat × Nat
     let (f, k, n) := seqExpect rest
     (f, c + k, n + 1)
 
-def specSeq (steps : List String) (obs : List (List String)) : Option String :=
+def specSeq (crashMode : Bool) (steps : List String) (obs : List (List String)) : Option String :=
+  let core : Option (List (List String) × Option String × Option String) :=
+    match crashMode, obs with
+    | false, [r, ran, ["failed", fl]] => some ([r, ran], some fl, none)
+    | true, [r, ran, ["failed", fl], ["crashed", k]] => some ([r, ran], some fl, some k)   -- the crash count is compared with the model only
+    | _, _ => none
+  match core with
+  | none => some "no `r`/`ran`/`failed`[/`crashed`] observation"
+  | some (obs, fl, k) =>
   match steps.mapM seqStep, obs with
   | some st, [["r", f, c], ["ran", n]] =>
     match f.toNat?, c.toNat?, n.toNat? with
     | some f, some c, some n =>
       let (ef, ec, en) := seqExpect st
-      if n != en then some s!"{n} statements of the body were started, {en} expected (a failing check must end the test body)"
+      if fl != some (if ef == 0 then "0" else "1") then
+        some s!"the test's failed flag is {fl} after {ef} failing checks"
+      else if n != en then some s!"{n} statements of the body were started, {en} expected (a failing check must end the test body)"
       else if f != ef then some s!"recorded {f} failures, expected {ef} (one failure per failing check, none after it)"
       else if c != ec then some s!"counted {c} checks, expected {ec}"
       else none
@@ -438,9 +494,23 @@ def specEvals (m : String) (e0 es a0 as : Int) (obs : List (List String)) : Opti
         if c != f then some s!"comparison recorded {f} failures but counted {c} checks"
         else if es == 0 && as == 0 && (f == 1) != !(decide (e0 < a0)) then some "verdict differs from e < a"
         else none
+      else if m == "CHECK_COMPARE_ge" then
+        if c != f then some s!"comparison recorded {f} failures but counted {c} checks"
+        else if es == 0 && as == 0 && (f == 1) != !(decide (e0 ≥ a0)) then some "verdict differs from e >= a"
+        else none
       else
+        -- the predicate the macro names, on pure operands (values -5 .. 5 in an int)
+        let differ : Bool :=
+          match m with
+          | "BYTES_EQUAL" | "BITS_EQUAL" | "C_UBYTE" | "C_BITS" => wrapU 8 e0 != wrapU 8 a0
+          | "SIGNED_BYTES_EQUAL" => wrapS 8 e0 != wrapS 8 a0
+          | "C_BOOL" => (e0 != 0) != (a0 != 0)
+          | "CHECK" | "CHECK_TRUE" | "CHECK_C" => e0 == 0
+          | "CHECK_FALSE" => e0 != 0
+          | "CHECK_EQUAL_ZERO" => a0 != 0
+          | _ => e0 != a0
         if c != 1 then some s!"counted {c} checks, the property demands 1"
-        else if es == 0 && as == 0 && (f == 1) != (e0 != a0) then some "verdict differs from e == a"
+        else if es == 0 && as == 0 && (f == 1) != differ then some "verdict differs from the named predicate on the (pure) operands"
         else none
     | _, _ => some "malformed observation"
   | _ => some "no `r`/`evals`/`warn` observation"
@@ -448,7 +518,8 @@ def specEvals (m : String) (e0 es a0 as : Int) (obs : List (List String)) : Opti
 def specOp (o : Proto.Op) : Option String :=
   match o.op with
   | ["skip"] => none
-  | "seq" :: steps => specSeq steps o.obs
+  | "seq" :: steps => specSeq false steps o.obs
+  | "seqc" :: steps => specSeq true steps o.obs
   | ["evals", m, e0, es, a0, as] =>
     match e0.toInt?, es.toInt?, a0.toInt?, as.toInt? with
     | some e0, some es, some a0, some as => specEvals m e0 es a0 as o.obs
